@@ -50,43 +50,58 @@ def free_consts(es):
     return list(acc.values())
 
 
-def exact_defs(e):
+def _exact_body(name, d):
+    w = d.range().size()
+    a, b = z3.Var(0, z3.BitVecSort(w)), z3.Var(1, z3.BitVecSort(w))
+    zero = z3.BitVecVal(0, w)
+    op = name.split("_")[2]
+    return {
+        "bvudiv": z3.If(b == zero, zero, z3.UDiv(a, b)),
+        "bvurem": z3.If(b == zero, zero, z3.URem(a, b)),
+        "bvmul": a * b,
+        "bvsdiv": z3.If(b == zero, zero, a / b),
+        "bvsrem": z3.If(b == zero, zero, z3.SRem(a, b)),
+    }.get(op)
+
+
+def exact_defs_many(es):
     """replace the arithmetic abstractions f_evm_bv{mul,udiv,urem,sdiv,srem}_N by their exact
-    EVM meaning (our own definitions, written from the yellow paper)"""
+    EVM meaning (our own definitions, written from the yellow paper); f_evm_exp with a small
+    constant exponent is read as the repeated product"""
+    es = list(es)
     fs = {}
-    for t in _walk([e]):
-        if z3.is_app(t) and t.decl().kind() == z3.Z3_OP_UNINTERPRETED and t.num_args() == 2:
+    exps = []
+    for t in _walk(es):
+        if z3.is_app(t) and t.num_args() == 2 and t.decl().kind() == z3.Z3_OP_UNINTERPRETED:
             n = t.decl().name()
             if n.startswith("f_evm_bv"):
                 fs[n] = t.decl()
-    for n, d in fs.items():
-        w = d.range().size()
-        a, b = z3.Var(0, z3.BitVecSort(w)), z3.Var(1, z3.BitVecSort(w))
-        zero = z3.BitVecVal(0, w)
-        op = n.split("_")[2]
-        body = {
-            "bvudiv": z3.If(b == zero, zero, z3.UDiv(a, b)),
-            "bvurem": z3.If(b == zero, zero, z3.URem(a, b)),
-            "bvmul": a * b,
-            "bvsdiv": z3.If(b == zero, zero, a / b),
-            "bvsrem": z3.If(b == zero, zero, z3.SRem(a, b)),
-        }.get(op)
-        if body is None:
-            continue
-        e = z3.substitute_funs(e, (d, body))
-    # f_evm_exp with a small constant exponent is read as the repeated product
-    reps = []
-    for t in _walk([e]):
-        if z3.is_app(t) and t.num_args() == 2 and t.decl().kind() == z3.Z3_OP_UNINTERPRETED and t.decl().name().startswith("f_evm_exp"):
+            elif n.startswith("f_evm_exp"):
+                exps.append(t)
+    if exps:
+        reps = []
+        for t in exps:
             k = t.arg(1)
             if z3.is_bv_value(k) and k.as_long() <= 16 and not z3.is_bv_value(t.arg(0)):
                 prod = z3.BitVecVal(1, t.size())
                 for _ in range(k.as_long()):
                     prod = prod * t.arg(0)
                 reps.append((t, prod))
-    if reps:
-        e = z3.substitute(e, *reps)
-    return e
+        if reps:
+            es = [z3.substitute(e, *reps) for e in es]
+    if fs:
+        pairs = []
+        for n, d in fs.items():
+            body = _exact_body(n, d)
+            if body is not None:
+                pairs.append((d, body))
+        if pairs:
+            es = [z3.substitute_funs(e, *pairs) for e in es]
+    return es
+
+
+def exact_defs(e):
+    return exact_defs_many([e])[0]
 
 
 def _keccak_of(arg):
@@ -97,8 +112,9 @@ def _keccak_of(arg):
 EMPTY_KECCAK = int.from_bytes(keccak(b""), "big")
 
 
-def fold(es, subs):
-    es = [z3.simplify(z3.substitute(exact_defs(e), *subs)) if subs else z3.simplify(exact_defs(e)) for e in es]
+def fold_prepared(es, subs):
+    """es already went through exact_defs_many"""
+    es = [z3.simplify(z3.substitute(e, *subs)) if subs else z3.simplify(e) for e in es]
     for _ in range(12):
         reps = []
         for a in apps_of(es, "f_sha3_"):
@@ -111,6 +127,10 @@ def fold(es, subs):
             break
         es = [z3.simplify(z3.substitute(e, *reps)) for e in es]
     return es
+
+
+def fold(es, subs):
+    return fold_prepared(exact_defs_many(es), subs)
 
 
 class Pins:
@@ -130,20 +150,37 @@ class Pins:
         self.subs.append((arr, e))
 
 
-def admits(conds, terms, pins: Pins, timeout_ms=5000, extra_defs=()):
+class Prepared:
+    """conditions and observed terms of one path with the abstractions made exact (done once per
+    path; reused for every pinned input)"""
+
+    def __init__(self, conds, terms):
+        self.nconds = len(conds)
+        self.es = exact_defs_many(list(conds) + list(terms))
+        # one conjunction for a cheap first rejection test
+        self.conj = z3.And(self.es[: self.nconds]) if self.nconds > 1 else None
+
+
+def admits(conds, terms, pins: Pins, timeout_ms=5000):
+    return admits_prepared(Prepared(conds, terms), pins, timeout_ms)
+
+
+def admits_prepared(prep: Prepared, pins: Pins, timeout_ms=5000):
     """returns (verdict, values) with verdict in {'sat','unsat','unknown'} and values the list
-    of `terms` evaluated in the found model (ints for bit-vectors, bools)"""
-    conds = list(conds)
-    terms = list(terms)
-    es = fold(conds + terms + list(extra_defs), pins.subs)
-    cs = es[: len(conds)] + es[len(conds) + len(terms):]
-    ts = es[len(conds): len(conds) + len(terms)]
+    of observed terms evaluated in the found model (ints for bit-vectors, bools)"""
+    if prep.conj is not None and pins.subs:
+        if z3.is_false(z3.simplify(z3.substitute(prep.conj, *pins.subs))):
+            return "unsat", None
+    es = fold_prepared(prep.es, pins.subs)
+    cs = es[: prep.nconds]
+    ts = es[prep.nconds:]
     if any(z3.is_false(c) for c in cs):
         return "unsat", None
-    f_empty = [t for t in free_consts(es) if t.decl().name() == "f_sha3_0"]
+    cs = [c for c in cs if not z3.is_true(c)]
     extra = []
-    for t in f_empty:
-        extra.append(t == z3.BitVecVal(EMPTY_KECCAK, 256))
+    for t in free_consts(es):
+        if t.decl().name() == "f_sha3_0":
+            extra.append(t == z3.BitVecVal(EMPTY_KECCAK, 256))
     for _ in range(ROUNDS):
         s = z3.Solver()
         s.set(timeout=timeout_ms)
@@ -190,30 +227,27 @@ def admits(conds, terms, pins: Pins, timeout_ms=5000, extra_defs=()):
     return "unknown", None
 
 
-def path_models(conds, inputs, n=3, timeout_ms=3000, rng=None, exclude=()):
-    """Concrete valuations of `inputs` (list of BitVec symbols) satisfying the path, *under the
-    real keccak / exact arithmetic*: solve with the exact definitions, then confirm with
-    `admits` by the caller.  Returns a list of {sym: int}.  Boundary-biased via random
-    preferred values tried as soft constraints."""
-    es = [exact_defs(c) for c in conds]
+def path_models(conds, inputs, n=2, timeout_ms=300, rng=None):
+    """Candidate concrete valuations of `inputs` for a path, from the *abstract* conditions (as
+    halmos sees them: cheap).  Whether a candidate really is admitted under real keccak / exact
+    arithmetic is decided afterwards by `admits`.  Boundary-biased via assumption literals."""
     out = []
-    blocked = []
+    s = z3.Solver()
+    s.set(timeout=timeout_ms)
+    for c in conds:
+        s.add(c)
+    blocked = 0
     for i in range(n):
-        s = z3.Solver()
-        s.set(timeout=timeout_ms)
-        for c in es + blocked:
-            s.add(c)
-        if rng is not None and i > 0:
-            # bias: try to pin a random subset of inputs to boundary values
-            for sym in inputs:
-                if rng.random() < 0.5:
-                    w = sym.size()
-                    v = rng.choice([0, 1, 2, (1 << w) - 1, 1 << (w - 1), (1 << (w - 1)) - 1, rng.getrandbits(8)]) % (1 << w)
-                    s.push()
-                    s.add(sym == v)
-                    if s.check() != z3.sat:
-                        s.pop()
-        if s.check() != z3.sat:
+        assumptions = []
+        if rng is not None and i > 0 and inputs:
+            for sym in rng.sample(inputs, min(2, len(inputs))):
+                w = sym.size()
+                v = rng.choice([0, 1, 2, (1 << w) - 1, 1 << (w - 1), (1 << (w - 1)) - 1, rng.getrandbits(8)]) % (1 << w)
+                assumptions.append(sym == v)
+        r = s.check(*assumptions)
+        if r != z3.sat and assumptions:
+            r = s.check()
+        if r != z3.sat:
             break
         m = s.model()
         val = {}
@@ -221,5 +255,6 @@ def path_models(conds, inputs, n=3, timeout_ms=3000, rng=None, exclude=()):
             v = m.eval(sym, model_completion=True)
             val[sym] = v.as_long()
         out.append(val)
-        blocked.append(z3.Or([sym != v for sym, v in val.items()]) if val else z3.BoolVal(False))
+        if val:
+            s.add(z3.Or([sym != v for sym, v in val.items()]))
     return out
